@@ -90,7 +90,7 @@ Definition wstep (c : gsets * list instr) : gsets * list instr :=
   | IInter g s :: k' => (gset g (bset_inter (gget g σ) s) σ, k')
   | IAdd g x :: k' => (gset g (bset_add x (gget g σ)) σ, k')
   | IIfNonempty g body :: k' => (σ, if is_nil (gget g σ) then k' else body ++ k')
-  | IRaise :: _ => (σ, [IRaise])              (* the task died: nothing further happens *)
+  | IRaise :: k' => (σ, IRaise :: k')         (* the task died: nothing further happens *)
   end.
 
 (* a validator thread evaluating is_pubkey_allowed for pubkey pk: four atomic reads *)
